@@ -57,7 +57,7 @@ import (
 // ---------------------------------------------------------------- inputs
 
 type op struct {
-	K string `json:"k"`           // rewrite|trunc|rename|k8s|link|delete|reload
+	K string `json:"k"`           // rewrite|trunc|rename|k8s|link|delete|reload|dir|rmparent
 	C int    `json:"c"`           // content id; -1 = identical to the current content
 	V int    `json:"v,omitempty"` // variant bits: 1 = keep the old directory / delete only the target; 2 = leave the old target alone
 	P int    `json:"p,omitempty"` // pause before the operation (racing mode): 0, 1 = 50us, 2 = 2ms
@@ -68,6 +68,7 @@ type input struct {
 	Layout  int    `json:"layout"`  // 0 regular file, 1 k8s with ..data, 2 k8s with ..dir, 3 symlink into another directory
 	Backend string `json:"backend"` // args | dials
 	Early   int    `json:"early,omitempty"` // args backend: number of leading ops applied between the initial Value() and Watch()
+	Poll    bool   `json:"poll,omitempty"`  // racing: WithPollInterval(3ms); the history may remove and re-create the parent directory
 	Ops     []op   `json:"ops"`
 }
 
@@ -185,6 +186,9 @@ func (r *recArgs) ReportError(_ context.Context, err error) error {
 		fmt.Fprintf(os.Stderr, "c17 debug: reported error: %v\n", err)
 	}
 	var de *file.DecoderErr
+	lastErrMu.Lock()
+	lastErr = err.Error()
+	lastErrMu.Unlock()
 	r.mu.Lock()
 	r.reports = append(r.reports, rep{isErr: true, ioErr: !errors.As(err, &de)})
 	r.mu.Unlock()
@@ -194,6 +198,17 @@ func (r *recArgs) Done(context.Context) {
 	r.mu.Lock()
 	r.done++
 	r.mu.Unlock()
+}
+
+var (
+	lastErrMu sync.Mutex
+	lastErr   string
+)
+
+func lastErrText() string {
+	lastErrMu.Lock()
+	defer lastErrMu.Unlock()
+	return lastErr
 }
 
 type obs struct {
@@ -237,6 +252,7 @@ const (
 	shLink
 	shMissing
 	shDangling // the config symlink exists, its target does not
+	shDir      // a directory sits where the file should be: reading it fails (EISDIR)
 )
 
 type world struct {
@@ -273,16 +289,16 @@ func writeFile(p string, b []byte) {
 }
 
 // cleanup deals with the previous target after the config path was switched
-// away from it.  Variant bit 1 (v&2): leave it alone (file and directory stay;
-// never for kubernetes layouts, whose writer always removes the old
-// timestamped directory).  Otherwise the old file is removed and, unless
+// away from it.  Variant bit 1 (v&2): leave it alone (file and directory stay).  Otherwise the old file is removed and, unless
 // variant bit 0 is set, its directory too.
 func (w *world) cleanup(oldShape, oldIno int, oldTarget, oldDir string, v int) {
 	if oldShape == shRegular || oldShape == shMissing {
 		return
 	}
 	k8s := oldShape == shK8s || (oldShape == shDangling && w.danglingOf == shK8s)
-	if v&2 != 0 && !k8s {
+	if v&2 != 0 {
+		// also for kubernetes layouts: the swap of the ..data link itself must
+		// be noticed, not only the removal of the old timestamped directory
 		return
 	}
 	if oldShape != shDangling && oldTarget != "" {
@@ -317,8 +333,48 @@ func (w *world) apply(o op, pause func()) {
 			w.dead = append(w.dead, oldIno)
 		}
 	}
+	if w.shape == shDir && o.K != "reload" && o.K != "dir" {
+		// every operation first removes the directory that sits in the way
+		must(os.Remove(w.cfg))
+		w.dead = append(w.dead, w.ino)
+		w.entryChanged = true
+		w.shape, w.target, w.targetDir, w.ino = shMissing, "", "", 0
+		oldShape, oldIno, oldTarget, oldDir = shMissing, 0, "", ""
+		pause()
+	}
 	switch o.K {
 	case "reload":
+		return
+	case "dir":
+		if w.shape == shDir {
+			return
+		}
+		if w.shape != shMissing {
+			must(os.Remove(w.cfg))
+			replaced()
+			if oldShape == shK8s || (oldShape == shDangling && w.danglingOf == shK8s) {
+				w.dropK8sLink()
+			}
+			w.cleanup(oldShape, oldIno, oldTarget, oldDir, o.V&2)
+			pause()
+		}
+		must(os.Mkdir(w.cfg, 0o755))
+		w.entryChanged = true
+		w.shape, w.target, w.targetDir = shDir, w.cfg, ""
+		w.newIno()
+		return
+	case "rmparent":
+		// the whole config directory disappears and comes back with a regular file
+		must(os.RemoveAll(w.d))
+		if oldDir != "" && !strings.HasPrefix(oldDir, w.d) {
+			os.RemoveAll(oldDir)
+		}
+		pause()
+		must(os.Mkdir(w.d, 0o755))
+		pause()
+		writeFile(w.cfg, b)
+		w.shape, w.target, w.targetDir, w.cur = shRegular, w.cfg, "", c
+		w.newIno()
 		return
 	case "rewrite", "trunc":
 		exists := w.shape == shRegular || w.shape == shK8s || w.shape == shLink
@@ -426,13 +482,16 @@ func (w *world) apply(o op, pause func()) {
 }
 
 // truth reads the config path the way an independent observer would.
-func (w *world) truth() (exists bool, cid int, resolved string) {
+// kind: 0 absent, 1 readable content, 2 present but unreadable (a directory).
+func (w *world) truth() (kind int, cid int, resolved string) {
 	b, err := os.ReadFile(w.cfg)
 	if err != nil {
-		if !os.IsNotExist(err) {
-			panic(err)
+		if os.IsNotExist(err) {
+			return 0, 0, ""
 		}
-		return false, 0, ""
+		r, rerr := filepath.EvalSymlinks(w.cfg)
+		must(rerr)
+		return 2, 0, r
 	}
 	id, ok := contentID(b)
 	if !ok {
@@ -440,7 +499,24 @@ func (w *world) truth() (exists bool, cid int, resolved string) {
 	}
 	r, err := filepath.EvalSymlinks(w.cfg)
 	must(err)
-	return true, id, r
+	return 1, id, r
+}
+
+// linkres is what the loop's not-exist branch can learn about a (dangling)
+// symlink: the directory its target names, resolved, plus the base name.
+func (w *world) linkres() (string, bool) {
+	tgt, err := os.Readlink(w.cfg)
+	if err != nil {
+		return "", false
+	}
+	if !filepath.IsAbs(tgt) {
+		tgt = filepath.Join(w.d, tgt)
+	}
+	dir, err := filepath.EvalSymlinks(filepath.Dir(tgt))
+	if err != nil {
+		return "", false
+	}
+	return filepath.Join(dir, filepath.Base(tgt)), true
 }
 
 func (w *world) sym(p string) string {
@@ -518,7 +594,11 @@ func setup(in input) *runner {
 		w.apply(op{K: "link", C: 0}, func() {})
 	}
 	r := &runner{w: w, args: &recArgs{reports: []rep{{val: 0}}}, reload: make(chan os.Signal)}
-	ws, err := file.NewWatchingSource(w.cfg, &djson.Decoder{}, file.WithSignalChannel(r.reload))
+	opts := []file.WatchOpt{file.WithSignalChannel(r.reload)}
+	if in.Poll {
+		opts = append(opts, file.WithPollInterval(3*time.Millisecond))
+	}
+	ws, err := file.NewWatchingSource(w.cfg, &djson.Decoder{}, opts...)
 	must(err)
 	r.ws = ws
 	r.hs = &hookState{seen: map[string]chan struct{}{}}
@@ -679,15 +759,19 @@ func (r *runner) teardown() (released bool, why string) {
 
 var pauses = []time.Duration{0, 50 * time.Microsecond, 2 * time.Millisecond}
 
-func coqRead(exists bool, cid int) string {
-	if !exists {
+func coqRead(kind int, cid int) string {
+	switch kind {
+	case 0:
 		return "NotExist"
+	case 1:
+		return fmt.Sprintf("(Content %d)", cid)
+	default:
+		return "IOErr"
 	}
-	return fmt.Sprintf("(Content %d)", cid)
 }
 
-func optPath(w *world, exists bool, p string) string {
-	if !exists {
+func optPath(w *world, ok bool, p string) string {
+	if !ok {
 		return "None"
 	}
 	return "(Some " + w.sym(p) + ")"
@@ -702,7 +786,7 @@ func optN(v int) string {
 
 func opTerm(o op) string {
 	k := map[string]string{"rewrite": "ORewrite", "trunc": "OTrunc", "rename": "ORename", "k8s": "OK8s",
-		"link": "OLink", "delete": "ODelete", "reload": "OReload"}[o.K]
+		"link": "OLink", "delete": "ODelete", "reload": "OReload", "dir": "ODir", "rmparent": "ORmParent"}[o.K]
 	return k
 }
 
@@ -725,6 +809,15 @@ func runQuiescent(in input) driver.Result {
 	return res
 }
 
+// noteOdd leaves a trace of an unexplained error report for later diagnosis.
+func noteOdd(in input, term string, step int) {
+	if f, err := os.OpenFile(filepath.Join("..", "build", "c17-unexplained-errors.log"), os.O_APPEND|os.O_CREATE|os.O_WRONLY, 0o644); err == nil {
+		b, _ := json.Marshal(in)
+		fmt.Fprintf(f, "%s step %d (%s): %s; last error: %s\n", time.Now().Format(time.RFC3339), step, term, b, lastErrText())
+		f.Close()
+	}
+}
+
 func runQuiescentOnce(in input) (driver.Result, bool) {
 	odd := false
 	r := setup(in)
@@ -737,7 +830,7 @@ func runQuiescentOnce(in input) (driver.Result, bool) {
 	kinds := map[string]bool{}
 	changes := 0
 	prevCid, prevExists := 0, true
-	prevNio, prevNerrs := 0, 0
+	prevNio, prevNerrs, prevKind := 0, 0, 1
 	record := func(term string, o op, transient bool) bool {
 		if o.K == "reload" && !r.sendReload() {
 			res.Direct = append(res.Direct, "watch loop did not take an explicit reload within 15s")
@@ -748,7 +841,9 @@ func runQuiescentOnce(in input) (driver.Result, bool) {
 			return false
 		}
 		evs := r.takeEvents()
-		exists, cid, resolved := w.truth()
+		kind, cid, resolved := w.truth()
+		exists := kind != 0
+		lres, lok := w.linkres()
 		ob := r.args.snapshot()
 		var evTerms, goneTerms, deadTerms []string
 		for _, e := range evs {
@@ -760,17 +855,22 @@ func runQuiescentOnce(in input) (driver.Result, bool) {
 		for _, x := range w.dead {
 			deadTerms = append(deadTerms, fmt.Sprint(x))
 		}
-		steps = append(steps, fmt.Sprintf("mkStep %s %s %s %d %s %s %s %s %s %d %d %d %s %s",
-			term, coqRead(exists, cid), optPath(w, exists, resolved), w.ino, coqfmt.List(deadTerms), coqfmt.List(goneTerms),
+		steps = append(steps, fmt.Sprintf("mkStep %s %s %s %s %d %s %s %s %s %s %d %d %d %s %s",
+			term, coqRead(kind, cid), optPath(w, exists, resolved), optPath(w, lok, lres), w.ino, coqfmt.List(deadTerms), coqfmt.List(goneTerms),
 			coqfmt.Bool(transient), coqfmt.List(evTerms), w.symList(r.ws.VerifWatchList()),
 			ob.nvals, ob.nerrs, ob.nio, optN(ob.last), coqfmt.Bool(ob.lastErr)))
 		if ob.nio > prevNio {
 			res.Tags = append(res.Tags, "q-io-error-reported")
 		}
-		if ob.nerrs > prevNerrs && !transient && prevCid < firstInvalid && (!exists || cid < firstInvalid) {
+		if ob.nerrs > prevNerrs && !transient && prevKind != 2 && prevCid < firstInvalid && kind != 2 && (!exists || cid < firstInvalid) {
 			odd = true
+			noteOdd(in, term, len(steps))
 		}
+		prevKind = kind
 		prevNio, prevNerrs = ob.nio, ob.nerrs
+		if kind != 1 {
+			cid = firstInvalid
+		}
 		if exists != prevExists || cid != prevCid {
 			changes++
 		}
@@ -785,10 +885,14 @@ func runQuiescentOnce(in input) (driver.Result, bool) {
 		if !ok {
 			break
 		}
+		if o.K == "rmparent" {
+			continue // racing mode only: watches on the config directory itself die with it
+		}
 		prevShape := w.shape
 		w.apply(o, func() {})
 		// an operation may let the loop read a transient state (empty file)
 		transient := o.K == "trunc" || (o.K == "rewrite" && !(prevShape == shRegular || prevShape == shK8s || prevShape == shLink))
+
 		ok = record(opTerm(o), o, transient)
 		kinds[o.K] = true
 		res.Tags = append(res.Tags, "q-op-"+o.K)
@@ -821,10 +925,8 @@ func runRacing(in input) driver.Result {
 		before := w.cur
 		shapeBefore := w.shape
 		w.apply(o, func() { time.Sleep(pauses[o.P%len(pauses)]) })
-		// (operation, it removed only the symlink's target and left a dangling link,
-		//  it touched the config path's own directory entry)
-		hist = append(hist, fmt.Sprintf("(%s, %s, %s)", opTerm(o), coqfmt.Bool(w.shape == shDangling && shapeBefore != shDangling),
-			coqfmt.Bool(w.entryChanged)))
+		_ = shapeBefore
+		hist = append(hist, opTerm(o))
 		if o.K == "reload" {
 			r.sendReload()
 		}
@@ -837,8 +939,16 @@ func runRacing(in input) driver.Result {
 		kinds[o.K] = true
 		res.Tags = append(res.Tags, "r-op-"+o.K)
 	}
+	if in.Poll {
+		// the ticker is the only notification left after the parent directory was replaced
+		time.Sleep(60 * time.Millisecond)
+	}
 	settled := r.settle()
-	exists, cid, _ := w.truth()
+	kind, cid, _ := w.truth()
+	exists := kind != 0
+	if kind == 2 {
+		cid = firstInvalid // unreadable: like malformed content
+	}
 	var ob obs
 	fail := func(format string, a ...interface{}) {
 		res.Direct = append(res.Direct, fmt.Sprintf(format, a...))
@@ -881,9 +991,8 @@ func runRacing(in input) driver.Result {
 		ob = r.args.snapshot()
 	}
 	// The property's own oracle.  Whether the view converged (to decode(final),
-	// or last good + error) is decided inside Coq from the term below, because a
-	// failure there may fall into a known-finding class that is a predicate on
-	// the history; everything else is a direct oracle.
+	// or last good + error) is decided inside Coq from the term below;
+	// everything else is a direct oracle.
 	viewGood := valid[ob.last]
 	if !viewGood {
 		fail("the view A=%d is not a good value of the history", ob.last)
@@ -895,7 +1004,7 @@ func runRacing(in input) driver.Result {
 	if !released {
 		fail("%s", why)
 	}
-	res.Coq = fmt.Sprintf("Racing %s %s %s %s %s %s", coqfmt.List(hist), coqRead(exists, cid), optN(ob.last), coqfmt.Bool(ob.lastErr),
+	res.Coq = fmt.Sprintf("Racing %s %s %s %s %s %s", coqfmt.List(hist), coqRead(kind, cid), optN(ob.last), coqfmt.Bool(ob.lastErr),
 		coqfmt.Bool(ob.dup), coqfmt.Bool(released && viewGood && settled))
 	res.Nontrivial = len(kinds) >= 3 && changes >= 2
 	return res
@@ -922,7 +1031,9 @@ func genOps(r *coqfmt.Rng, maxOps int) []op {
 	nextC := 1
 	for i := range ops {
 		var o op
-		switch x := r.Intn(20); {
+		switch x := r.Intn(21); {
+		case x == 20:
+			o.K = "dir"
 		case x < 4:
 			o.K = "rewrite"
 		case x < 6:
@@ -975,6 +1086,24 @@ func gen(r *coqfmt.Rng, n int, tier string) []json.RawMessage {
 			if in.Backend == "args" && r.Chance(1, 4) {
 				in.Early = 1 + r.Intn(2)
 			}
+			if r.Chance(1, 5) {
+				// fault family: the parent directory is removed and re-created;
+				// afterwards only the ticker (poll mode) or an explicit reload can notify
+				in.Poll = r.Chance(1, 2)
+				for k := 0; k < 1+r.Intn(2); k++ {
+					j := r.Intn(len(in.Ops))
+					in.Ops[j].K = "rmparent"
+					if in.Ops[j].C < 0 {
+						in.Ops[j].C = 0
+					}
+				}
+				if !in.Poll {
+					// everything after the removal is invisible until somebody says "reload"
+					in.Ops = append(in.Ops, op{K: "reload", P: 2})
+				}
+			} else if r.Chance(1, 6) {
+				in.Poll = true
+			}
 		}
 		b, _ := json.Marshal(in)
 		out = append(out, b)
@@ -1005,6 +1134,18 @@ func corpus() []json.RawMessage {
 	for i := 0; i < 6; i++ {
 		add(input{Mode: "r", Backend: "args", Layout: 1, Ops: win})
 	}
+	// kubernetes swap of the real ..data link whose old directory is NOT removed: only the rename itself can notify
+	add(input{Mode: "q", Backend: "args", Layout: 1, Ops: []op{{K: "k8s", C: 1, V: 2}, {K: "k8s", C: 2, V: 2}, {K: "k8s", C: 102, V: 2}, {K: "k8s", C: 3}}})
+	add(input{Mode: "r", Backend: "dials", Layout: 1, Ops: []op{{K: "k8s", C: 1, V: 2}, {K: "k8s", C: 2, V: 2, P: 1}}})
+	// dangling symlink right after a switch (former class C17/2), then re-creation in the never-watched directory
+	add(input{Mode: "r", Backend: "args", Layout: 0, Ops: []op{{K: "link", C: 103, V: 2}, {K: "delete", V: 1}, {K: "rewrite", C: 103, V: 3, P: 1}, {K: "trunc", C: 1, V: 3, P: 1}, {K: "rewrite", C: 3, V: 3, P: 1}}})
+	add(input{Mode: "r", Backend: "args", Layout: 1, Ops: []op{{K: "link", C: 1, V: 3, P: 2}, {K: "k8s", C: -1}, {K: "delete", C: 1, V: 1}, {K: "rewrite", C: 106, P: 1}, {K: "rewrite", C: 3, V: 1, P: 2}}})
+	// a directory where the file should be (read fails), then repaired
+	add(input{Mode: "q", Backend: "args", Layout: 0, Ops: []op{{K: "dir"}, {K: "reload"}, {K: "rename", C: 1}, {K: "dir"}, {K: "link", C: 2}, {K: "dir"}, {K: "trunc", C: 3}}})
+	// parent directory removed and re-created: ticker, or an explicit reload
+	add(input{Mode: "r", Backend: "args", Layout: 0, Poll: true, Ops: []op{{K: "rmparent", C: 1}, {K: "rewrite", C: 2, P: 2}, {K: "rmparent", C: 3, P: 1}}})
+	add(input{Mode: "r", Backend: "dials", Layout: 3, Poll: true, Ops: []op{{K: "rewrite", C: 1}, {K: "rmparent", C: 2}, {K: "rename", C: 101, P: 2}}})
+	add(input{Mode: "r", Backend: "args", Layout: 1, Ops: []op{{K: "rmparent", C: 1}, {K: "rewrite", C: 2, P: 2}, {K: "reload", P: 2}}})
 	// a change between the initial Value() and Watch()
 	add(input{Mode: "q", Backend: "args", Layout: 0, Early: 1, Ops: []op{{K: "rename", C: 3}, {K: "rewrite", C: 4}}})
 	add(input{Mode: "q", Backend: "args", Layout: 3, Early: 2, Ops: []op{{K: "rewrite", C: 3}, {K: "k8s", C: 4}, {K: "rename", C: 5}}})
@@ -1061,9 +1202,10 @@ func main() {
 	}
 	driver.Main(driver.Engine{
 		Prop: "C17", CoqImport: "Dials.Check.C17Check", CoqRun: "run_cases",
-		Rule: "histories of 1..12 (thorough 24) operations over {in-place rewrite, truncate+write, atomic rename-over, kubernetes ..data/..dir swap, " +
-			"symlink into another directory, delete (path or target only), explicit reload} x content {fresh valid, identical bytes, earlier valid, malformed} " +
-			"on 4 initial layouts; even cases quiescent-step (compared with the model), odd cases racing with pauses {0,50us,2ms}; " +
+		Rule: "histories of 1..12 (thorough 24) operations over {in-place rewrite, truncate+write, atomic rename-over, kubernetes ..data/..dir swap (old directory removed or kept), " +
+			"symlink into another directory, delete (path or target only), directory in place of the file, explicit reload} x content {fresh valid, identical bytes, earlier valid, malformed} " +
+			"on 4 initial layouts; even cases quiescent-step (compared with the model), odd cases racing with pauses {0,50us,2ms}, a fifth of them with the parent directory " +
+			"removed and re-created (poll mode or a final explicit reload), some in poll mode; " +
 			"non-trivial: >=3 distinct operation kinds and >=2 changes of the file's content; distinct = distinct JSON inputs",
 		Gen: gen, Run: run, Corpus: corpus(),
 	})
